@@ -288,6 +288,9 @@ class FuncInfo(object):
 #       attributes is assigned in the function, rooted at a name that is not
 #       rebound)                                          ->  a.b.c wherever t is read
 #       (an analysis normal form: "bind the repeated chain to a local")
+#   C8  `return any(E for x in it if c)`  ->  `for x in it: if c and E: return True`
+#       followed by `return False` (dually for all()): the quantifier and the
+#       early-return loop are the same thing to every rule
 #   C6  `t = E` immediately followed by a statement in which t (bound once, read
 #       once in the function) is the first thing evaluated apart from plain
 #       name / attribute / constant loads                 ->  E substituted for t
@@ -482,14 +485,25 @@ def _propagate_aliases(fn):
           loads.get(t, 0) < 2:
         continue  # single loads are C6's business
       root, parts = ch
-      if stores.get(root, 0) > (1 if root in params else 0):
-        continue
+      if stores.get(root, 0) > 1:
+        continue  # the root is rebound: t may be a snapshot
       if any(p in attr_stores for p in parts):
         continue
       aliases[t] = n.value
       owners.append(n)
   if not aliases:
     return
+  # aliases of aliases: close the table first
+  for _ in range(5):
+    inner = _AliasSubst(dict(aliases))
+    changed = False
+    for k in list(aliases):
+      if any(isinstance(x, ast.Name) and x.id in aliases
+             for x in ast.walk(aliases[k])):
+        aliases[k] = inner.visit(copy.deepcopy(aliases[k]))
+        changed = True
+    if not changed:
+      break
   # nested functions / comprehensions may capture the name: still a plain read
   sub = _AliasSubst(aliases)
   for field, val in ast.iter_fields(fn):
@@ -509,7 +523,46 @@ def _propagate_aliases(fn):
         h.body[:] = keep or [ast.Pass()]
 
 
+def _expand_quantifier_returns(fn):
+  for parent in ast.walk(fn):
+    for blk in _canon_blocks(parent):
+      i = 0
+      while i < len(blk):
+        st = blk[i]
+        v = st.value if isinstance(st, ast.Return) else None
+        if isinstance(v, ast.Call) and isinstance(v.func, ast.Name) and \
+            v.func.id in ('any', 'all') and len(v.args) == 1 and \
+            not v.keywords and isinstance(
+                v.args[0], (ast.GeneratorExp, ast.ListComp)) and \
+            len(v.args[0].generators) == 1 and \
+            not v.args[0].generators[0].is_async:
+          gen = v.args[0].generators[0]
+          is_any = v.func.id == 'any'
+          elt = v.args[0].elt
+          cond = elt if is_any else ast.UnaryOp(op=ast.Not(), operand=elt)
+          conds = list(gen.ifs) + [cond]
+          test = conds[0] if len(conds) == 1 else ast.BoolOp(op=ast.And(),
+                                                             values=conds)
+          hit = ast.Return(value=ast.Constant(value=is_any))
+          loop = ast.For(target=gen.target, iter=gen.iter,
+                         body=[ast.If(test=test, body=[hit], orelse=[])],
+                         orelse=[])
+          for t in ast.walk(loop.target):
+            if isinstance(t, ast.Name):
+              t.ctx = ast.Store()
+          tail = ast.Return(value=ast.Constant(value=not is_any))
+          for n in (loop, tail):
+            ast.copy_location(n, st)
+          ast.fix_missing_locations(loop)
+          ast.fix_missing_locations(tail)
+          blk[i:i + 1] = [loop, tail]
+          i += 2
+          continue
+        i += 1
+
+
 def _canon_function(fn):
+  _expand_quantifier_returns(fn)
   _propagate_aliases(fn)
   loads, stores = _name_uses(fn)
   stack = [fn]
@@ -593,7 +646,7 @@ class Module(object):
     self.src = src
     self.tree = ast.parse(src, filename=relpath)
     self.inline_log = []
-    if anchors is not None:
+    if anchors is not None and any(a[0] == relpath for a in anchors):
       from sa import inline  # pylint: disable=g-import-not-at-top
       self.inline_log = inline.inline_module(
           self.tree, relpath, anchors, foreign_text or (lambda name: False))
